@@ -165,7 +165,8 @@ theorem step_connectNew {cl : List Sid} {c : Client} (hi : Inv cl c) {h : Host} 
   | ok =>
     refine ⟨⟨?_, ?_, Nat.le_succ _, rfl⟩, by simp [CacheAfter, List.lookup]⟩
     · simp [wellUsed, hnew]
-    · show Inv cl { conns := (h, c.nextSid) :: eraseHost h c.conns, leased := c.leased, nextSid := c.nextSid + 1 }
+    · show Inv cl { conns := (h, c.nextSid) :: eraseHost h c.conns, leased := c.leased, nextSid := c.nextSid + 1,
+                      tls := (c.nextSid, a.https) :: c.tls }
       refine { keys := ?_, sids := ?_, live := ?_, old := ?_ }
       · show ((h, c.nextSid) :: eraseHost h c.conns |>.map (·.1)).Nodup
         simp only [List.map_cons, List.nodup_cons]
@@ -193,14 +194,14 @@ theorem step_connectNew {cl : List Sid} {c : Client} (hi : Inv cl c) {h : Host} 
   | refused =>
     refine ⟨⟨?_, ?_, Nat.le_succ _, rfl⟩, hl⟩
     · simp [wellUsed, hnew]
-    · show Inv cl { conns := c.conns, leased := c.leased, nextSid := c.nextSid + 1 }
+    · show Inv cl { conns := c.conns, leased := c.leased, nextSid := c.nextSid + 1, tls := c.tls }
       exact { keys := hi.keys, sids := hi.sids,
               live := fun p hp => ⟨hncl p hp, Nat.lt_succ_of_lt (hlt p hp)⟩,
               old := fun s hs => Nat.lt_succ_of_lt (hold s hs) }
   | timedOut =>
     refine ⟨⟨?_, ?_, Nat.le_succ _, rfl⟩, hl⟩
     · simp [wellUsed, hnew]
-    · show Inv (c.nextSid :: cl) { conns := c.conns, leased := c.leased, nextSid := c.nextSid + 1 }
+    · show Inv (c.nextSid :: cl) { conns := c.conns, leased := c.leased, nextSid := c.nextSid + 1, tls := c.tls }
       refine { keys := hi.keys, sids := hi.sids, live := ?_, old := ?_ }
       · intro p hp
         have h1 : p.2 < c.nextSid := hlt p hp
@@ -223,10 +224,10 @@ theorem step_acquire {cl : List Sid} {c : Client} (hi : Inv cl c) (h : Host) (a 
   cases hl : c.conns.lookup h with
   | none => exact step_connectNew hi a hl
   | some sid =>
-    by_cases hf : a.cacheFresh = true
+    by_cases hf : entryUsable c sid a = true
     · simp only [hf, if_true]
       exact ⟨StepOK.refl hi, hl⟩
-    · have hf' : a.cacheFresh = false := by simpa using hf
+    · have hf' : entryUsable c sid a = false := by simpa using hf
       simp only [hf', Bool.false_eq_true, if_false]
       have hd := step_drop hi hl
       rw [dropConnection_hit hl] at hd
